@@ -2,6 +2,7 @@
 From Coq Require Import List ZArith NArith Bool Lia Arith String.
 From RG Require Import Base.Str Base.Dec Base.Num Gen.GenUnits Model.Recipe Model.Compiler Model.Parser Model.Printer
   Proofs.DecLemmas Proofs.ParserLex Proofs.ParserName.
+From RG Require Spec.UnitsRef Proofs.UnitsScan Proofs.UnitsTable Proofs.UnitsTail.
 From RG Require Model.Units.
 Import ListNotations.
 Open Scope string_scope.
@@ -178,7 +179,153 @@ Proof.
   - rewrite (sc_hsp_run (h :: w') (c :: r) ltac:(discriminate) Hw Hch), (preposition_inert c r Hci). reflexivity.
 Qed.
 
+(** ** Prepositions and units (reusing the C12 lemmas) *)
+Lemma ci_wordb_word (w m : str) : ci_wordb w m = true -> UnitsTail.ci_word w m.
+Proof.
+  unfold ci_wordb, UnitsTail.ci_word. revert m. induction w as [|a w IH]; intros m H; destruct m as [|c m];
+    cbn [List.length Nat.eqb combine forallb] in H; try discriminate H.
+  - constructor.
+  - apply andb_true_iff in H as [Hl H]. cbn [fst snd] in H. apply andb_true_iff in H as [Hac H].
+    constructor; [exact Hac|]. apply IH. rewrite Hl, H. reflexivity.
+Qed.
+
+Lemma not_word_hsp c : is_hsp c = true -> Units.is_word c = false.
+Proof.
+  unfold is_hsp, Units.is_hsp. intro H. apply orb_true_iff in H as [H|H]; apply N.eqb_eq in H; subst; vm_compute; reflexivity.
+Qed.
+Lemma not_word_opener c : opener c -> Units.is_word c = false.
+Proof. intros [->|[->| ->]]; vm_compute; reflexivity. Qed.
+
+Lemma boundary_hsp_opener (w : str) c (r : str) : forallb is_hsp w = true -> opener c ->
+  UnitsRef.boundary_after (w ++ c :: r).
+Proof.
+  intros Hw Hc. destruct w as [|h w']; cbn [app UnitsRef.boundary_after].
+  - exact (not_word_opener c Hc).
+  - cbn [forallb] in Hw. apply andb_true_iff in Hw as [Hh _]. exact (not_word_hsp h Hh).
+Qed.
+
+Lemma ci_head_not_hsp a (w o : str) : UnitsTail.ci_word (a :: w) o ->
+  (forall c, Units.lit_match_with true a c = true -> is_hsp c = false) -> stops is_hsp o.
+Proof. intros H Ha. inversion H as [|a' c w' m Hac _]; subst. cbn [stops]. exact (Ha c Hac). Qed.
+
+Lemma o_class_not_hsp c : Units.lit_match_with true 111 c = true -> is_hsp c = false.
+Proof.
+  intro H. destruct (is_hsp c) eqn:E; [|reflexivity]. unfold is_hsp, Units.is_hsp in E.
+  apply orb_true_iff in E as [E|E]; apply N.eqb_eq in E; subst c; vm_compute in H; discriminate H.
+Qed.
+
+Lemma pword_head pw (X : str) : pword_ok pw = true -> stops is_hsp (pword_str pw ++ X).
+Proof.
+  intro H. assert (Ho : exists o rest', pword_str pw = o ++ rest' /\ UnitsTail.ci_word [111; 102] o).
+  { destruct pw as [o | o w2 th]; cbn [pword_ok pword_str] in *.
+    - exists o, []. rewrite app_nil_r. split; [reflexivity | exact (ci_wordb_word _ _ H)].
+    - do 3 (apply andb_true_iff in H as [H _]). exists o, (w2 ++ th). split; [reflexivity | exact (ci_wordb_word _ _ H)]. }
+  destruct Ho as [o [rest' [E Hw]]]. rewrite E. inversion Hw as [|a c w' m Hac _]; subst. cbn [app stops].
+  exact (o_class_not_hsp c Hac).
+Qed.
+
+Lemma the_fails_at_opener c (r : str) : opener c -> Units.match_ci_lit [116; 104; 101] (c :: r) = None.
+Proof. intro Hc. apply match_ci_lit_head. destruct Hc as [->|[->| ->]]; vm_compute; reflexivity. Qed.
+
+Lemma pword_prep pw (w : str) c (r : str) : pword_ok pw = true -> forallb is_hsp w = true -> opener c ->
+  Units.preposition (pword_str pw ++ w ++ c :: r) = Some (pword_str pw, w ++ c :: r).
+Proof.
+  intros Hok Hw Hc. pose proof (boundary_hsp_opener w c r Hw Hc) as Hb.
+  destruct pw as [o | o w2 th]; cbn [pword_ok pword_str] in *.
+  - apply (UnitsTail.preposition_of o (w ++ c :: r) (ci_wordb_word _ _ Hok) Hb).
+    intros w0 r2 Hh. destruct w as [|h w'].
+    + cbn [app] in Hh. unfold Units.hsp in Hh. cbn [Units.span] in Hh.
+      change (Units.is_hsp c) with (is_hsp c) in Hh. rewrite (opener_not_hsp c Hc) in Hh. discriminate Hh.
+    + pose proof (sc_hsp_run (h :: w') (c :: r) ltac:(discriminate) Hw (opener_not_hsp c Hc)) as E.
+      unfold sc_hsp in E. rewrite E in Hh. inversion Hh; subst. exact (the_fails_at_opener c r Hc).
+  - apply andb_true_iff in Hok as [Hok Hth]. apply andb_true_iff in Hok as [Hok Hne]. apply andb_true_iff in Hok as [Ho Hw2].
+    assert (Hn2 : w2 <> []) by (destruct w2; [discriminate Hne | discriminate]).
+    destruct (UnitsTail.preposition_of_the [32] o w2 th (w ++ c :: r) eq_refl ltac:(discriminate) (ci_wordb_word _ _ Ho) Hw2 Hn2
+                (ci_wordb_word _ _ Hth) Hb) as [_ P].
+    repeat rewrite <- app_assoc. exact P.
+Qed.
+
+(** [(hsp preposition)?] on a printed optional preposition. *)
+Lemma oprep_roundtrip p (w : str) c (r : str) : oprep_ok p = true -> forallb is_hsp w = true -> opener c ->
+  opt_hsp_prep (oprep_str p ++ w ++ c :: r) = (oprep_str p, w ++ c :: r).
+Proof.
+  intros Hok Hw Hc. destruct p as [[w' pw]|]; cbn [oprep_ok oprep_str] in *.
+  - apply andb_true_iff in Hok as [Hok Hpw]. apply andb_true_iff in Hok as [Hw' Hne].
+    assert (Hn : w' <> []) by (destruct w'; [discriminate Hne | discriminate]).
+    unfold opt_hsp_prep. repeat rewrite <- app_assoc.
+    rewrite (sc_hsp_run w' _ Hn Hw' (pword_head pw _ Hpw)), (pword_prep pw w c r Hpw Hw Hc). reflexivity.
+  - cbn [app]. exact (opt_hsp_prep_none w c r Hw (opener_not_hsp c Hc) (opener_inert c Hc)).
+Qed.
+
+Lemma unit_ok_spelled n v : unit_ok n v = true -> In n Units.all_names /\ UnitsRef.spelled n v.
+Proof.
+  unfold unit_ok. intro H. do 2 (apply andb_true_iff in H as [H _]). apply andb_true_iff in H as [Hm He]. split.
+  - unfold Units.str_mem in Hm. apply existsb_exists in Hm as [x [Hx E]]. apply str_eqb_eq in E. subst. exact Hx.
+  - apply existsb_exists in He as [[m r] [Hin E]]. cbn [fst snd] in E. apply andb_true_iff in E as [Hr Hv].
+    destruct r; [|discriminate Hr]. apply str_eqb_eq in Hv. subst m.
+    destruct (UnitsScan.match_pieces_sound _ _ _ _ Hin) as [_ M]. exact M.
+Qed.
+
+Lemma unit_ok_head n v : unit_ok n v = true ->
+  exists c t, v = c :: t /\ is_digit c = false /\ c <> 46 /\ c <> 47 /\ is_hsp c = false /\ c <> 37 /\ c <> 42.
+Proof.
+  unfold unit_ok. intro H. apply andb_true_iff in H as [H _]. apply andb_true_iff in H as [_ H].
+  destruct v as [|c t]; [discriminate H|]. exists c, t.
+  repeat (apply andb_true_iff in H as [H ?H]). apply negb_true_iff in H, H0, H1, H2, H3, H4.
+  apply N.eqb_neq in H0, H1, H3, H4. repeat split; assumption.
+Qed.
+
+Lemma unit_not_prep n v (X : str) : unit_ok n v = true -> Units.preposition (v ++ X) = None.
+Proof.
+  unfold unit_ok. intro H. apply andb_true_iff in H as [_ H]. unfold Units.preposition.
+  destruct v as [|c1 [|c2 t]]; [discriminate H | |]; cbn [app Units.match_ci_lit]; unfold lm in H.
+  - apply negb_true_iff in H. rewrite H. reflexivity.
+  - apply negb_true_iff in H. apply andb_false_iff in H as [H|H]; rewrite H; [reflexivity|].
+    destruct (Units.lit_match_with true 111 c1); reflexivity.
+Qed.
+
+(** The unit, the spacing before it and the preposition after it are recovered. *)
+Lemma implicit_tail_unit sp n v p (w : str) c (r : str) :
+  forallb is_hsp sp = true -> unit_ok n v = true -> oprep_ok p = true -> forallb is_hsp w = true -> opener c ->
+  Units.implicit_tail (sp ++ v ++ oprep_str p ++ w ++ c :: r) = Some (sp, v, oprep_str p, w ++ c :: r).
+Proof.
+  intros Hsp Hu Hp Hw Hc. destruct (unit_ok_spelled n v Hu) as [Hn Hs].
+  destruct (unit_ok_head n v Hu) as [c0 [t0 [Ev [_ [_ [_ [Hh _]]]]]]].
+  assert (Hb : UnitsRef.boundary_after (oprep_str p ++ w ++ c :: r)).
+  { destruct p as [[w' pw]|]; cbn [oprep_str].
+    - cbn [oprep_ok] in Hp. apply andb_true_iff in Hp as [Hp _]. apply andb_true_iff in Hp as [Hw' Hne].
+      destruct w' as [|h w'']; [discriminate Hne|]. cbn [app UnitsRef.boundary_after]. cbn [hsp_run forallb] in Hw'.
+      apply andb_true_iff in Hw' as [Hh' _]. exact (not_word_hsp h Hh').
+    - cbn [app]. exact (boundary_hsp_opener w c r Hw Hc). }
+  pose proof (UnitsTable.every_name_recognised n v _ Hn Hs Hb) as Hk.
+  unfold Units.implicit_tail.
+  assert (Hstop : stops is_hsp (v ++ oprep_str p ++ w ++ c :: r)) by (rewrite Ev; exact Hh).
+  assert (Hh1 : Units.hsp (v ++ oprep_str p ++ w ++ c :: r) = None).
+  { rewrite Ev. cbn [app]. exact (sc_hsp_none c0 _ Hh). }
+  assert (Htail : match Units.hsp (oprep_str p ++ w ++ c :: r) with
+                  | Some (w0, r3) =>
+                      match Units.preposition r3 with
+                      | Some (p3, r4) => Some (sp, v, w0 ++ p3, r4)
+                      | None => Some (sp, v, [], oprep_str p ++ w ++ c :: r)
+                      end
+                  | None => Some (sp, v, [], oprep_str p ++ w ++ c :: r)
+                  end = Some (sp, v, oprep_str p, w ++ c :: r)).
+  { pose proof (oprep_roundtrip p w c r Hp Hw Hc) as Ho. unfold opt_hsp_prep, sc_hsp in Ho.
+    destruct (Units.hsp (oprep_str p ++ w ++ c :: r)) as [[w1 r2]|] eqn:Eh.
+    - destruct (Units.preposition r2) as [[p1 r3]|] eqn:Ep; inversion Ho as [[Ha Hb']].
+      + reflexivity.
+      + reflexivity.
+    - inversion Ho as [[Ha Hb']]. reflexivity. }
+  destruct sp as [|h sp'].
+  - cbn [app]. rewrite Hh1, Hk. exact Htail.
+  - pose proof (sc_hsp_run (h :: sp') _ ltac:(discriminate) Hsp Hstop) as E. unfold sc_hsp in E. rewrite E, Hk.
+    exact Htail.
+Qed.
+
 (** ** [p_amount] on a printed amount followed by horizontal space and a name *)
+Lemma amt_ok_parts am : amt_ok am = true -> ntext_ok (amt_num am) = true /\ tail_text_ok (amt_tail am) = true.
+Proof. unfold amt_ok. intro H. apply andb_true_iff in H as [H _]. apply andb_true_iff in H. exact H. Qed.
+
 Lemma amount_roundtrip am (w : str) c (r : str) o b fuel :
   amt_ok am = true -> forallb is_hsp w = true -> opener c ->
   p_amount fuel (mkSt (print_amt am ++ w ++ c :: r) o b) =
@@ -191,38 +338,97 @@ Proof.
   assert (Hc47 : c <> 47) by (destruct Hc as [->|[->| ->]]; discriminate).
   assert (Hc37 : c <> 37) by (destruct Hc as [->|[->| ->]]; discriminate).
   assert (Hc42 : c <> 42) by (destruct Hc as [->|[->| ->]]; discriminate).
-  destruct am as [t | t w0 | t w0]; cbn [amt_ok print_amt amt_val] in *.
+  destruct (amt_ok_parts am Hok) as [Hnum _]. unfold amt_ok in Hok. apply andb_true_iff in Hok as [_ Hok].
+  unfold print_amt.
+  destruct am as [t | t sp n v p | t w0 pw | t w0 p | t w0]; cbn [amt_num amt_tail amt_val] in *.
   - (* unit-less quantity *)
+    rewrite app_nil_r.
     pose proof (num_follow_hsp_then t w c r Hw Hch Hcd Hc46 Hc47) as Hf.
     unfold p_amount, p_proportion. cbn [rest].
-    rewrite (sc_remainder_number t _ Hok), (p_number_text t _ o b Hok Hf). cbn [rest].
+    rewrite (sc_remainder_number t _ Hnum), (p_number_text t _ o b Hnum Hf). cbn [rest].
     rewrite (no_prep_alt _ _ w c r Hw Hch Hci).
     rewrite (skip_hsp_run w (c :: r) _ b Hw Hch).
     rewrite (eat_miss 37 c r _ b Hc37), (eat_miss 42 c r _ b Hc42).
-    unfold p_explicit. rewrite (eat_brace_number t _ o b Hok).
-    unfold p_implicit. rewrite (p_number_text t _ o b Hok Hf). cbn [rest].
+    unfold p_explicit. rewrite (eat_brace_number t _ o b Hnum).
+    unfold p_implicit. rewrite (p_number_text t _ o b Hnum Hf). cbn [rest].
     rewrite (implicit_tail_opener w c r Hw Hc). reflexivity.
-  - (* number "*" *)
-    apply andb_true_iff in Hok as [Hok Hw0].
-    assert (Hf : num_follow t (w0 ++ 42 :: w ++ c :: r))
+  - (* number unit [preposition] *)
+    apply andb_true_iff in Hok as [Hok Hp]. apply andb_true_iff in Hok as [Hsp Hu].
+    destruct (unit_ok_head n v Hu) as [c0 [t0 [Ev [Hd0 [H46 [H47 [Hh0 [H37 H42]]]]]]]].
+    assert (Hf : num_follow t (sp ++ v ++ oprep_str p ++ w ++ c :: r))
+      by (rewrite Ev; cbn [app]; apply num_follow_hsp_then; assumption).
+    unfold p_amount, p_proportion. cbn [rest]. repeat rewrite <- app_assoc.
+    rewrite (sc_remainder_number t _ Hnum), (p_number_text t _ o b Hnum Hf). cbn [rest].
+    (* hsp preposition: the unit is not a preposition *)
+    assert (A1 : match sc_hsp (sp ++ v ++ oprep_str p ++ w ++ c :: r) with
+                 | Some (w1, r1) => match Units.preposition r1 with
+                                    | Some (p0, r'0) => Some (PropVal (ntext_val t) false (w1 ++ p0),
+                                        adv (mkSt (sp ++ v ++ oprep_str p ++ w ++ c :: r) (o + len (ntext_str t)) b) (w1 ++ p0) r'0)
+                                    | None => None end
+                 | None => None end = None).
+    { destruct sp as [|h sp'].
+      - cbn [app]. rewrite Ev. cbn [app]. rewrite (sc_hsp_none c0 _ Hh0). reflexivity.
+      - assert (Hstop : stops is_hsp (v ++ oprep_str p ++ w ++ c :: r)) by (rewrite Ev; exact Hh0).
+        rewrite (sc_hsp_run (h :: sp') _ ltac:(discriminate) Hsp Hstop), (unit_not_prep n v _ Hu). reflexivity. }
+    rewrite A1.
+    assert (Hstop : stops is_hsp (v ++ oprep_str p ++ w ++ c :: r)) by (rewrite Ev; exact Hh0).
+    rewrite (skip_hsp_run sp _ _ b Hsp Hstop). rewrite Ev. cbn [app].
+    rewrite (eat_miss 37 c0 _ _ b H37), (eat_miss 42 c0 _ _ b H42).
+    unfold p_explicit. rewrite (eat_brace_number t _ o b Hnum).
+    unfold p_implicit. change (c0 :: t0 ++ oprep_str p ++ w ++ c :: r) with ((c0 :: t0) ++ oprep_str p ++ w ++ c :: r).
+    rewrite <- Ev. rewrite (p_number_text t _ o b Hnum Hf). cbn [rest].
+    rewrite (implicit_tail_unit sp n v p w c r Hsp Hu Hp Hw Hc). unfold advn. cbn [off bad].
+    f_equal. f_equal. rewrite ?Ev. repeat (rewrite len_app || rewrite len_cons). lia.
+  - (* number hsp preposition *)
+    apply andb_true_iff in Hok as [Hok Hpw]. apply andb_true_iff in Hok as [Hw0 Hne].
+    assert (Hn0 : w0 <> []) by (destruct w0; [discriminate Hne | discriminate]).
+    pose proof (pword_head pw (w ++ c :: r) Hpw) as Hph.
+    assert (Hf : num_follow t (w0 ++ pword_str pw ++ w ++ c :: r)).
+    { destruct (pword_str pw ++ w ++ c :: r) as [|c1 r1] eqn:E.
+      - destruct pw; cbn [pword_str] in E; destruct o0; discriminate E || (cbn [pword_ok ci_wordb List.length Nat.eqb andb] in Hpw; discriminate Hpw).
+      - cbn [stops] in Hph.
+        destruct t; cbn [num_follow].
+        + destruct w0 as [|h w0']; [contradiction|]. cbn [hsp_run forallb] in Hw0. apply andb_true_iff in Hw0 as [Hh Hw0'].
+          cbn [app int_follow]. rewrite Hh. change (h :: w0' ++ c1 :: r1) with ((h :: w0') ++ c1 :: r1).
+          rewrite (span_app is_hsp (h :: w0') (c1 :: r1)); [| cbn [forallb]; rewrite Hh; exact Hw0' | exact Hph].
+          cbn [snd stops].
+          assert (Hlm : Units.lit_match_with true 111 c1 = true).
+          { destruct pw as [o0 | o0 w2 th]; cbn [pword_ok pword_str] in *.
+            - pose proof (ci_wordb_word _ _ Hpw) as W. inversion W as [|a c' w' m Hac _]; subst. cbn [app] in E. inversion E; subst. exact Hac.
+            - do 3 (apply andb_true_iff in Hpw as [Hpw _]). pose proof (ci_wordb_word _ _ Hpw) as W.
+              inversion W as [|a c' w' m Hac _]; subst. cbn [app] in E. inversion E; subst. exact Hac. }
+          destruct (is_digit c1) eqn:Ed; [|reflexivity]. pose proof (digit_inert c1 Ed) as I. unfold inert in I.
+          apply andb_true_iff in I as [_ I]. rewrite Hlm in I. discriminate I.
+        + destruct w0 as [|h w0']; [contradiction|]. cbn [hsp_run forallb] in Hw0. apply andb_true_iff in Hw0 as [Hh _].
+          exact (hsp_not_digit h Hh).
+        + destruct w0 as [|h w0']; [contradiction|]. cbn [hsp_run forallb] in Hw0. apply andb_true_iff in Hw0 as [Hh _].
+          exact (hsp_not_digit h Hh).
+        + destruct w0 as [|h w0']; [contradiction|]. cbn [hsp_run forallb] in Hw0. apply andb_true_iff in Hw0 as [Hh _].
+          exact (hsp_not_digit h Hh). }
+    unfold p_amount, p_proportion. cbn [rest]. repeat rewrite <- app_assoc.
+    rewrite (sc_remainder_number t _ Hnum), (p_number_text t _ o b Hnum Hf). cbn [rest].
+    rewrite (sc_hsp_run w0 _ Hn0 Hw0 Hph), (pword_prep pw w c r Hpw Hw Hc).
+    unfold adv. cbn [off bad]. f_equal. f_equal. repeat rewrite len_app. lia.
+  - (* number "%" [preposition] *)
+    apply andb_true_iff in Hok as [Hok Hdiv]. apply andb_true_iff in Hok as [Hw0 Hp].
+    assert (Hf : num_follow t (w0 ++ 37 :: oprep_str p ++ w ++ c :: r))
       by (apply num_follow_hsp_then; [exact Hw0 | reflexivity | reflexivity | discriminate | discriminate]).
     unfold p_amount, p_proportion. cbn [rest]. repeat rewrite <- app_assoc. cbn [app].
-    rewrite (sc_remainder_number t _ Hok), (p_number_text t _ o b Hok Hf). cbn [rest].
-    rewrite (no_prep_alt _ _ w0 42 _ Hw0 eq_refl eq_refl).
-    rewrite (skip_hsp_run w0 (42 :: w ++ c :: r) _ b Hw0 eq_refl).
-    rewrite (eat_miss 37 42 _ _ b ltac:(discriminate)), (eat_hit 42 _ _ b).
-    f_equal. f_equal. rewrite !len_app, len_cons, len_nil. lia.
-  - (* number "%" *)
-    apply andb_true_iff in Hok as [Hok Hdiv]. apply andb_true_iff in Hok as [Hok Hw0].
-    assert (Hf : num_follow t (w0 ++ 37 :: w ++ c :: r))
-      by (apply num_follow_hsp_then; [exact Hw0 | reflexivity | reflexivity | discriminate | discriminate]).
-    unfold p_amount, p_proportion. cbn [rest]. repeat rewrite <- app_assoc. cbn [app].
-    rewrite (sc_remainder_number t _ Hok), (p_number_text t _ o b Hok Hf). cbn [rest].
+    rewrite (sc_remainder_number t _ Hnum), (p_number_text t _ o b Hnum Hf). cbn [rest].
     rewrite (no_prep_alt _ _ w0 37 _ Hw0 eq_refl eq_refl).
-    rewrite (skip_hsp_run w0 (37 :: w ++ c :: r) _ b Hw0 eq_refl).
+    rewrite (skip_hsp_run w0 (37 :: _) _ b Hw0 eq_refl).
     rewrite (eat_hit 37 _ _ b). cbn [rest].
-    rewrite (opt_hsp_prep_none w c r Hw Hch Hci). unfold adv_pair, adv. cbn [fst snd off bad].
+    rewrite (oprep_roundtrip p w c r Hp Hw Hc). unfold adv_pair, adv. cbn [fst snd off bad].
     unfold percent_of. destruct (ndiv (ntext_val t) (NInt 100)) as [q| |]; try discriminate.
     rewrite with_bad_none.
-    f_equal. f_equal. rewrite !len_app, len_cons, !len_nil. lia.
+    f_equal. f_equal. repeat (rewrite len_app || rewrite len_cons). lia.
+  - (* number "*" *)
+    assert (Hf : num_follow t (w0 ++ 42 :: w ++ c :: r))
+      by (apply num_follow_hsp_then; [exact Hok | reflexivity | reflexivity | discriminate | discriminate]).
+    unfold p_amount, p_proportion. cbn [rest]. repeat rewrite <- app_assoc. cbn [app].
+    rewrite (sc_remainder_number t _ Hnum), (p_number_text t _ o b Hnum Hf). cbn [rest].
+    rewrite (no_prep_alt _ _ w0 42 _ Hok eq_refl eq_refl).
+    rewrite (skip_hsp_run w0 (42 :: w ++ c :: r) _ b Hok eq_refl).
+    rewrite (eat_miss 37 42 _ _ b ltac:(discriminate)), (eat_hit 42 _ _ b).
+    f_equal. f_equal. repeat (rewrite len_app || rewrite len_cons || rewrite len_nil). lia.
 Qed.
